@@ -127,7 +127,7 @@ func Genesis(config *params.ChainConfig, gasLimit uint64) *core.Genesis {
 	if gasLimit == 0 {
 		gasLimit = 8_000_000
 	}
-	return &core.Genesis{Config: config, GasLimit: gasLimit, Difficulty: big.NewInt(131072 * 64), Alloc: alloc, Timestamp: 1_500_000_000}
+	return &core.Genesis{Config: config, GasLimit: gasLimit, Difficulty: big.NewInt(1 << 30), Alloc: alloc, Timestamp: 1_500_000_000}
 }
 
 // ---------- nodes ----------
@@ -209,9 +209,10 @@ type BlockSpec struct {
 
 // Built is the result of building a block.
 type Built struct {
-	Block    *types.Block
-	Receipts types.Receipts
-	Skipped  []error // consensus errors of transactions that were skipped
+	Block      *types.Block
+	Receipts   types.Receipts
+	Skipped    []error // consensus errors of TxFn transactions that were skipped
+	SkippedTxs []error // consensus errors of offered spec.Txs that were skipped
 }
 
 // Build assembles a block on parent, executes it on the builder's own archive
@@ -271,6 +272,8 @@ func (b *Builder) Build(parent *types.Block, spec BlockSpec) (*Built, error) {
 	for _, tx := range spec.Txs {
 		try(tx)
 	}
+	skippedTxs := skipped // offered transactions may legitimately not fit; generated ones must
+	skipped = nil
 	if spec.TxFn != nil {
 		for i := 0; i < 64; i++ {
 			tx := spec.TxFn(statedb, header, gp.Gas())
@@ -291,7 +294,7 @@ func (b *Builder) Build(parent *types.Block, spec BlockSpec) (*Built, error) {
 	if _, err := b.Chain.InsertChain(types.Blocks{block}); err != nil {
 		return nil, fmt.Errorf("builder: own block %d rejected by InsertChain: %v", num, err)
 	}
-	return &Built{Block: block, Receipts: receipts, Skipped: skipped}, nil
+	return &Built{Block: block, Receipts: receipts, Skipped: skipped, SkippedTxs: skippedTxs}, nil
 }
 
 // SignedTx builds and signs a transaction with the signer active at height num.
